@@ -5,12 +5,12 @@
 #include <gmssl/tls.h>
 static const int HPROTO[3] = { TLS_protocol_tlcp, TLS_protocol_tls12, TLS_protocol_tls13 };
 static const int HCIPHER[3] = { TLS_cipher_ecc_sm4_cbc_sm3, TLS_cipher_ecdhe_sm4_cbc_sm3, TLS_cipher_sm4_gcm_sm3 };
-typedef struct { uint8_t certs[3000]; size_t certslen; uint8_t root[1200]; size_t rootlen; uint8_t ccerts[1500]; size_t ccertslen; } hcreds; static hcreds HC[3]; static int hc_ready;
-static void hcreds_init(void) { if (hc_ready) return; hc_ready = 1; creds_init(); for (int p = 0; p < 3; p++) { cert_spec leaf, enc, root; spec_leaf(&leaf, "s", X509_KU_DIGITAL_SIGNATURE); spec_leaf(&enc, "e", X509_KU_KEY_ENCIPHERMENT); spec_ca(&root, "R", -1); size_t n = 0; uint8_t *q = HC[p].certs; make_cert(&leaf, &CK[0], &CK[5], "R", q, &n); q += n; if (p == 0) { n = 0; make_cert(&enc, &CK[6], &CK[5], "R", q, &n); q += n; } HC[p].certslen = (size_t)(q - HC[p].certs); { cert_spec cl; spec_leaf(&cl, "c", X509_KU_DIGITAL_SIGNATURE); n = 0; make_cert(&cl, &CK[2], &CK[5], "R", HC[p].ccerts, &n); HC[p].ccertslen = n; } n = 0; make_cert(&root, &CK[5], &CK[5], "R", HC[p].root, &n); HC[p].rootlen = n; } }
+typedef struct { uint8_t certs[3000]; size_t certslen; uint8_t root[1200]; size_t rootlen; uint8_t ccerts[1500]; size_t ccertslen; uint8_t root2[1200]; size_t root2len; /* another root of the same name: a client that trusts only this one refuses the server */ } hcreds; static hcreds HC[3]; static int hc_ready;
+static void hcreds_init(void) { if (hc_ready) return; hc_ready = 1; creds_init(); for (int p = 0; p < 3; p++) { cert_spec leaf, enc, root; spec_leaf(&leaf, "s", X509_KU_DIGITAL_SIGNATURE); spec_leaf(&enc, "e", X509_KU_KEY_ENCIPHERMENT); spec_ca(&root, "R", -1); size_t n = 0; uint8_t *q = HC[p].certs; make_cert(&leaf, &CK[0], &CK[5], "R", q, &n); q += n; if (p == 0) { n = 0; make_cert(&enc, &CK[6], &CK[5], "R", q, &n); q += n; } HC[p].certslen = (size_t)(q - HC[p].certs); { cert_spec cl; spec_leaf(&cl, "c", X509_KU_DIGITAL_SIGNATURE); n = 0; make_cert(&cl, &CK[2], &CK[5], "R", HC[p].ccerts, &n); HC[p].ccertslen = n; } n = 0; make_cert(&root, &CK[5], &CK[5], "R", HC[p].root, &n); HC[p].rootlen = n; n = 0; make_cert(&root, &CK[9], &CK[9], "R", HC[p].root2, &n); HC[p].root2len = n; } }
 static void hs_role(int proto, int is_client, int pipe, int inst, out_t *o) {
-	(void)inst; TLS_CTX ctx; TLS_CONNECT *conn = (TLS_CONNECT *)calloc(1, sizeof *conn); memset(&ctx, 0, sizeof ctx); ctx.protocol = HPROTO[proto]; ctx.is_client = is_client; ctx.cipher_suites[0] = HCIPHER[proto]; ctx.cipher_suites_cnt = 1; ctx.verify_depth = 4; ctx.quiet = 1;
+	(void)inst; int refuse = proto >= 3; /* the client trusts another root: it refuses the server's chain with a fatal alert and both sides fail */ if (refuse) proto -= 3; TLS_CTX ctx; TLS_CONNECT *conn = (TLS_CONNECT *)calloc(1, sizeof *conn); memset(&ctx, 0, sizeof ctx); ctx.protocol = HPROTO[proto]; ctx.is_client = is_client; ctx.cipher_suites[0] = HCIPHER[proto]; ctx.cipher_suites_cnt = 1; ctx.verify_depth = 4; ctx.quiet = 1;
 	/* mutual authentication: both sides present a chain, both hold the root (the server then runs the client-verification code as well) */
-	if (!is_client) { ctx.certs = HC[proto].certs; ctx.certslen = HC[proto].certslen; ctx.signkey = CK[0]; ctx.kenckey = CK[6]; } else { ctx.certs = HC[proto].ccerts; ctx.certslen = HC[proto].ccertslen; ctx.signkey = CK[2]; } ctx.cacerts = HC[proto].root; ctx.cacertslen = HC[proto].rootlen;
+	if (!is_client) { ctx.certs = HC[proto].certs; ctx.certslen = HC[proto].certslen; ctx.signkey = CK[0]; ctx.kenckey = CK[6]; } else { ctx.certs = HC[proto].ccerts; ctx.certslen = HC[proto].ccertslen; ctx.signkey = CK[2]; } ctx.cacerts = HC[proto].root; ctx.cacertslen = HC[proto].rootlen; if (refuse && is_client) { ctx.cacerts = HC[proto].root2; ctx.cacertslen = HC[proto].root2len; }
 	if (tls_init(conn, &ctx) != 1) { o->rc = -77; free(conn); return; } conn->sock = 3000 + pipe; int r = tls_do_handshake(conn); o->rc = r;
 	if (r == 1) { if (proto != 2) { mix(o, conn->master_secret, 48); mix(o, conn->key_block, 96); } else { mix(o, conn->client_write_iv, 12); mix(o, conn->server_write_iv, 12); }
 		uint8_t buf[64]; size_t n = 0; if (is_client) { if (proto == 2) tls13_send(conn, MSG, 40, &n); else tls_send(conn, MSG, 40, &n); } else { int rr = proto == 2 ? tls13_recv(conn, buf, sizeof buf, &n) : tls_recv(conn, buf, sizeof buf, &n); o->rc += 10 * rr; mix(o, buf, n); } }
